@@ -3,6 +3,7 @@ import Texel.Proofs.Output
 import Texel.Proofs.ChainEdges
 import Texel.Proofs.NoCollapse
 import Texel.Model.RingF
+import Texel.Proofs.DedupeSub
 /-! # C04 — shape fidelity: nothing moves more than half a pixel, nothing is lost
 
 Proved here: (a, whole clause) `C04_output_vertex_is_input_pixel`: every vertex of every ring `snapPolygonF` returns — after joining,
@@ -34,6 +35,30 @@ theorem C04_address_contains_vertex (g : Grid) (hres : 0 < g.res) (p : Pt) (a : 
 /-- spike removal never invents a vertex (every ring, valid or not) -/
 theorem C04_dedup_vertices (ring out : Array P) (h : kmpDeduplicateF ring = .ok out) : ∀ v ∈ out, v ∈ ring :=
   kmpDeduplicateF_mem ring out h
+
+/-- **shell/hole cancellation only deletes** (ring level, for every list of shells and holes): what `dedupeInnersOuters` returns is a
+sub-sequence of the shells and a sub-sequence of the holes it was given — it never duplicates, invents, reorders a ring or moves one from
+the holes to the shells. (Which rings it deletes is decided by a loop of the model that is compared with the code, stream `snap`; that a
+deleted ring had an equal partner is finding F13's territory.) -/
+theorem C04_dedupe_only_deletes (outers inners o i : Array (Array P)) (h : dedupeF outers inners = .ok (o, i)) :
+    o.toList.Sublist outers.toList ∧ i.toList.Sublist inners.toList :=
+  dedupeF_sublist outers inners o i h
+
+-- non-vacuity (compiler-evaluated: the decision is a loop): of two equal shells and the same ring as a hole, one shell and the hole cancel
+#guard (match dedupeF #[#[(0,0),(2,0),(2,2)], #[(5,5),(7,5),(7,7)], #[(0,0),(2,0),(2,2)]] #[#[(0,0),(2,2),(2,0)]] with | .ok (o, i) => (o.size, i.size) | .error _ => (9, 9)) = (2, 0)
+
+/-- **hole matching loses and duplicates nothing** (ring level; partial: under the guard that every decision of `matchInnersToPolygons` names
+an existing polygon — in Go an index outside the slice is a panic, explored under C06): the polygons returned hold exactly the rings of the
+polygons given plus every hole once, attached to a shell or turned into a shell of its own. Together with `C04_dedupe_only_deletes`: between
+the ring clean-up and the result, rings disappear only by shell/hole cancellation. -/
+theorem C04_matching_loses_nothing_partial (polys0 : Array (Array (Array P))) (inners : Array (Array P))
+    (hd : ∀ inner ∈ inners.toList, ∀ i, matchDecision (polys0.map fun pg => pg[0]!) (sortPolyIdxsByOuterAreaDesc polys0) inner = some i → i < polys0.size) :
+    ringCount (matchF polys0 inners).toList = ringCount polys0.toList + inners.size :=
+  matchF_ringCount polys0 inners hd
+
+-- non-vacuity (compiler-evaluated): a hole inside the only shell is attached to polygon 0; one outside every shell becomes a shell of its own: 1 + 2 rings
+#guard matchDecision #[#[(0,0),(10,0),(10,10),(0,10)]] #[0] #[(2,2),(2,4),(4,4)] = some 0
+#guard ringCount (matchF #[#[#[(0,0),(10,0),(10,10),(0,10)]]] #[#[(2,2),(2,4),(4,4)], #[(20,20),(20,24),(24,24)]]).toList = 3
 
 /-- **C04, first clause, at full strength on the model**: every output vertex is the pixel centre of some vertex of the input polygon —
 for every polygon (valid or not), every requested level `0 < l ≤ depth`, every combination of flags. `v` is the pixel index pair the
